@@ -121,16 +121,18 @@ Print Assumptions C15_api_from_image_ok.
 
 (* ---- the generated copy tables carry, for every member of every composite literal of the export and
    import functions, the source text of its value; each is the member the model copies (Export.v
-   expected_export / expected_import), every copied member is covered, the Kind set per scalar site and
+   expected_export / expected_import), every member an export literal sets is a copied member or a
+   nested literal (export_table_complete: a new exported field breaks it), every copied member is covered, the Kind set per scalar site and
    the intKinds / floatKinds maps are the model's *)
 Theorem C15_copy_lines_read_the_member_the_model_copies :
+  export_table_complete ReflectGen.export_rhs = true /\
   rhs_table_ok (fun _ => expected_export) ReflectGen.export_rhs = true /\
   rhs_table_ok expected_import ReflectGen.import_rhs = true /\
   map (fun fmt => (int_format_name fmt ++ "=>" ++ match int_kind fmt with Some k => kind_go_name k | None => "" end)%string)
       [1%N; 2%N; 3%N; 4%N] = ReflectGen.intKinds /\
   map (fun fmt => (float_format_name fmt ++ "=>" ++ match float_kind fmt with Some k => kind_go_name k | None => "" end)%string)
       [1%N; 2%N] = ReflectGen.floatKinds.
-Proof. exact (conj export_rhs_ok (conj import_rhs_ok (conj (proj1 int_kinds_agree) (proj1 float_kinds_agree)))). Qed.
+Proof. exact (conj export_rhs_complete (conj export_rhs_ok (conj import_rhs_ok (conj (proj1 int_kinds_agree) (proj1 float_kinds_agree))))). Qed.
 Print Assumptions C15_copy_lines_read_the_member_the_model_copies.
 
 (* buildSchemas ranges over Go maps: the result does not depend on the order *)
